@@ -82,6 +82,10 @@ def gen_case(rng, scale=1):
     v["odd_tag_defs"] = rng.random() < 0.2
     v["undeclared_info"] = rng.random() < 0.25
     v["phasing_twice"] = rng.random() < 0.4
+    # F60 (fixes/F60.patch): a FILTER used in the body but not declared makes the unpatched whatshap abort while writing the
+    # first such record; generated only on request so that the check stays silent on the unpatched tree
+    draw = rng.random() < 0.3
+    v["undeclared_filter"] = draw and bool(os.environ.get("VERIF_C04_F60"))
     r = rng.random()
     # inputs the header pipeline refuses (VcfError -> clean command-line error, no output)
     v["refused"] = "undef-format" if r < 0.04 else "undef-info" if r < 0.08 else "ps-string" if r < 0.12 else None
@@ -261,6 +265,10 @@ def build_inputs(case, d):
             cut = rng.choice(cuts)
             tail = own[cut:]
             recs = [r for r in recs if not any(r is t for t in tail)] + tail
+    if v.get("undeclared_filter"):
+        for r in recs:
+            if rng.random() < 0.3:
+                r["filter"] = rng.choice(["q99", "q10;q99", "lowq"])
     refused = v.get("refused")
     if refused == "undef-format" and recs:
         r0 = rng.choice(recs)
